@@ -266,6 +266,8 @@ struct Env {
     udp_target_port: u16,
     /// a second UDP target (replies marked 'S'): one SOCKS5 association addresses both
     udp_target2_port: u16,
+    /// a third UDP target on [::1] (replies marked 'T'); 0 when the host has no IPv6 loopback
+    udp_target6_port: u16,
     /// a name with an IPv6 and an IPv4 address (in that order) while the server cannot open IPv6 sockets for outgoing
     /// traffic: a direct connection from the server falls back to the second address, so must the tunnel
     dual_host: Option<String>,
@@ -596,6 +598,11 @@ struct UdpObs {
     assoc_err: Option<String>,
     /// SOCKS5: datagrams with FRAG != 0 sent (a relay without reassembly must drop them, RFC 1928 section 7), how many of them
     /// were nevertheless answered by the target, and ordinary datagrams sent / replies received AFTER the fragments
+    /// one association alternating between an IPv4 and an IPv6 target: datagrams sent to / replies received from each
+    fam_v4_sent: usize,
+    fam_v4_replies: usize,
+    fam_v6_sent: usize,
+    fam_v6_replies: usize,
     /// requests that ask the target for one EMPTY datagram in reply / empty replies that arrived
     empty_asked: usize,
     empty_got: usize,
@@ -719,6 +726,43 @@ async fn udp_client(env: Arc<Env>, seed: u64, cid: u64, socks5: bool, n: usize, 
         collect(&sock, dest, socks5, cid, &expected, &mut seen, &mut o, deadline).await;
     }
     collect(&sock, dest, socks5, cid, &expected, &mut seen, &mut o, Instant::now() + Duration::from_millis(400)).await;
+    // (only clients without the later one-way / idle phases: a datagram for the other address family makes the server set the
+    // flow up again on a new socket, which would void the premise of those phases - "the flow is one flow all along")
+    if socks5 && env.dual_host.is_none() && env.udp_target6_port != 0 && cid % 4 == 3 {
+        // one association, two targets of different address families, alternately (every datagram of an association names its
+        // own target): each datagram is to reach its target
+        for k in 0..8u32 {
+            let v6 = k % 2 == 1;
+            let seq = n as u32 + 500 + k;
+            let mut req = cid.to_be_bytes().to_vec();
+            req.push((seq & 0xff) as u8);
+            req.push(1);
+            req.extend(seq.to_be_bytes());
+            req.extend(prf_vec(mix(seed, cid * 1000 + u64::from(seq)), 0, 20));
+            let mut out = vec![if v6 { b'T' } else { b'R' }, 0];
+            out.extend_from_slice(&req);
+            expected.insert((seq, 0), out);
+            let mut w = if v6 {
+                let mut w = vec![0u8, 0, 0, 4];
+                w.extend(std::net::Ipv6Addr::LOCALHOST.octets());
+                w.extend(env.udp_target6_port.to_be_bytes());
+                w
+            } else {
+                let mut w = vec![0u8, 0, 0, 1, 127, 0, 0, 1];
+                w.extend(env.udp_target_port.to_be_bytes());
+                w
+            };
+            w.extend(&req);
+            if sock.send_to(&w, dest).await.is_ok() {
+                if v6 { o.fam_v6_sent += 1 } else { o.fam_v4_sent += 1 }
+            }
+            collect(&sock, dest, socks5, cid, &expected, &mut seen, &mut o, Instant::now() + Duration::from_millis(120)).await;
+        }
+        collect(&sock, dest, socks5, cid, &expected, &mut seen, &mut o, Instant::now() + Duration::from_millis(300)).await;
+        let base = n as u32 + 500;
+        o.fam_v4_replies = (0..8u32).filter(|k| k % 2 == 0 && seen.contains(&(base + k, 0))).count();
+        o.fam_v6_replies = (0..8u32).filter(|k| k % 2 == 1 && seen.contains(&(base + k, 0))).count();
+    }
     {
         // replies of length zero (legal UDP; a keep-alive or an empty answer): each must come through like any other
         for k in 0..4u32 {
@@ -897,7 +941,7 @@ async fn collect(sock: &UdpSocket, dest: SocketAddr, socks5: bool, cid: u64, exp
             continue;
         }
         o.replies += 1;
-        if payload.len() < 16 || (payload[0] != b'R' && payload[0] != b'S') {
+        if payload.len() < 16 || (payload[0] != b'R' && payload[0] != b'S' && payload[0] != b'T') {
             o.corrupted += 1;
             continue;
         }
@@ -956,6 +1000,10 @@ async fn run_once(seed: u64, convs: Vec<Conv>, udp_clients: Vec<(u64, bool, usiz
     let ut2 = UdpSocket::bind("127.0.0.1:0").await.expect("bind");
     let udp_target2_port = ut2.local_addr().expect("addr").port();
     let ue2 = tokio::spawn(udp_target(ut2, b'S'));
+    let (udp_target6_port, ue6) = match UdpSocket::bind("[::1]:0").await {
+        Ok(u6) => (u6.local_addr().expect("addr").port(), Some(tokio::spawn(udp_target(u6, b'T')))),
+        Err(_) => (0, None),
+    };
     // must be called inside the runtime (tokio sockets); the guards live until the end of the run
     let (refuse_port, _refuse_guard) = net::reserve_refusing_port();
     let env = Arc::new(Env {
@@ -971,6 +1019,7 @@ async fn run_once(seed: u64, convs: Vec<Conv>, udp_clients: Vec<(u64, bool, usiz
         refuse_port,
         udp_target_port,
         udp_target2_port,
+        udp_target6_port,
         dual_host,
     });
     let args: &'static ClientArgs = Box::leak(Box::new(ClientArgs {
@@ -1062,6 +1111,9 @@ async fn run_once(seed: u64, convs: Vec<Conv>, udp_clients: Vec<(u64, bool, usiz
     t6.abort();
     ue.abort();
     ue2.abort();
+    if let Some(h) = ue6 {
+        h.abort();
+    }
     out
 }
 
@@ -1253,6 +1305,14 @@ fn judge(st: &mut Stats, seed: u64, out: &RunOut) {
             st.target("udp_flows_resumed_after_idle", 1);
             if o.after_idle_sent >= 5 && o.after_idle_replies == 0 {
                 st.violation(Violation { signature: format!("udp-flow-dead-after-idle|{kind}"), detail: format!("the local socket was silent for 11 s and then sent {} datagrams at 200 ms intervals: not one reply came back although the exchange worked before the pause ({} replies): the flow stays black-holed", o.after_idle_sent, o.replies - o.after_idle_replies), replay: replay() });
+            }
+        }
+        if o.fam_v6_sent > 0 {
+            st.target("socks5_associations_alternating_address_families", 1);
+            st.count("family_switch_v4_replies", o.fam_v4_replies as u64);
+            st.count("family_switch_v6_replies", o.fam_v6_replies as u64);
+            if o.fam_v6_sent >= 4 && o.fam_v4_sent >= 4 && (o.fam_v6_replies == 0 || o.fam_v4_replies == 0) && o.replies > 0 {
+                st.violation(Violation { signature: format!("udp-other-address-family-never-served|{kind}"), detail: format!("one SOCKS5 association sent 4 datagrams to an IPv4 target and 4 to an IPv6 target, alternately, 120 ms apart: {} / {} of them were answered (the association had served {} replies before): the datagrams for one address family never reach their target", o.fam_v4_replies, o.fam_v6_replies, o.replies), replay: replay() });
             }
         }
         if o.empty_asked > 0 {
